@@ -188,6 +188,9 @@ type Exec struct {
 	uncontracted  map[string]bool
 	pureAxiomDone map[string]bool
 	closureOfVar  map[*types.Var]*ast.FuncLit
+	// containerOf: slice-typed variables that share their backing array with a map element (`for k, v := range m`,
+	// `v := m[k]`): an in-place change of v through a callee is written back to m[k]
+	containerOf map[*types.Var]*containerSrc
 	allLits       map[*ast.FuncLit]bool
 	usedAxioms    map[string]bool
 	intrinsics    map[string]bool
@@ -210,7 +213,7 @@ func newExec(ld *Loader, cs *Contracts, pkg *packages.Package) *Exec {
 		heapComps: map[string]*Sort{}, structSorts: map[string]*Sort{}, typeTags: map[string]int{}, maxPaths: 20000, assumptions: map[string]bool{},
 		maxSteps: 400000, assertHit: map[int]bool{}, nthCache: map[string]token.Pos{}, ghostUpdHit: map[int]bool{}, skipHit: map[string]bool{}, loopHit: map[int]bool{}, cloHit: map[int]bool{},
 		freshSliceVars: map[*types.Var]bool{}, escaped: map[*ast.FuncLit]bool{}, uncontracted: map[string]bool{}, pureAxiomDone: map[string]bool{},
-		closureOfVar: map[*types.Var]*ast.FuncLit{}, allLits: map[*ast.FuncLit]bool{}, usedAxioms: map[string]bool{}, intrinsics: map[string]bool{}, cloVerified: map[*ast.FuncLit]bool{}, reassigned: map[types.Object]bool{}, freshPtrVars: map[*types.Var]bool{}, freshStructVars: map[*types.Var]bool{}, aliasMapVars: map[*types.Var]bool{},
+		containerOf: map[*types.Var]*containerSrc{}, closureOfVar: map[*types.Var]*ast.FuncLit{}, allLits: map[*ast.FuncLit]bool{}, usedAxioms: map[string]bool{}, intrinsics: map[string]bool{}, cloVerified: map[*ast.FuncLit]bool{}, reassigned: map[types.Object]bool{}, freshPtrVars: map[*types.Var]bool{}, freshStructVars: map[*types.Var]bool{}, aliasMapVars: map[*types.Var]bool{},
 	}
 }
 
@@ -719,4 +722,12 @@ func (ex *Exec) share(st *State, v Val) Val {
 	st.assume(eq(n, v.T))
 	v.T = n
 	return v
+}
+
+// containerSrc: the map element a slice variable was read from.
+type containerSrc struct {
+	X, Key   ast.Expr
+	loopKey  string // range with a blank key: the name of the loop's key in State.extra
+	keyObj   types.Object
+	fromDecl bool // v := m[k] (as opposed to a range value)
 }
